@@ -46,6 +46,7 @@ func c10Provocations(c *Ctx) map[string]func() string {
 			out[k] = f
 		}
 	}
+	c10SiteProvocations(c, out)
 	n := 10
 	dir := filepath.Join(c.Scratch, "c10provoke")
 	inv := "@include \"lib.mro\"\n\ncall TOP(\n    x = 1,\n)\n"
